@@ -13,7 +13,7 @@ META = dict(
 
 
 def run(ctx):
-    maxl = ctx.pick(3, 5)
+    maxl = ctx.pick(2, 4)
     r = ctx.tlc_mc("wire", "BodyStreamGen", "BodyStreamGen.cfg", consts={"MAXL": maxl},
                    workers=8, timeout=1200, heap="6g")
     path = os.path.join(r["dir"], "vectors.ndjson")
@@ -47,5 +47,6 @@ def run(ctx):
     ctx.assumptions = ["content length 0..%d, every composition of it as Read sizes, last data with/without io.EOF" % maxl,
                        "declared size = / -1 / +1 / unknown; closer none / io.Closer / Closer+CloseWithError (responses)",
                        "writer fault while head / body / trailer is written (byte offsets of that phase) or a panic in any Read call; not both in one scenario",
-                       "owner afterwards: released / Reset / SetBody",
+                       "owner afterwards: released / Reset / SetBody / CloseBodyStream, always followed by Reset + release; close counters judged over the whole history",
+                       "streams whose Close / CloseWithError return an error; requests through HostClient over a connection that dies after the request was written, with and without a retry-eligible method / RetryIf / RetryIfErr",
                        "compressed pipeline (CompressedClose.tla): write error before the original's EOF / after EOF / while its Close is in progress / after Close; gzip, deflate, br, zstd and CompressHandler on a live connection; a second Close is awaited for 500 ms while the first is held"]
